@@ -117,7 +117,9 @@ def gen_history(rng, kind, H, n_ops):
         else:
             rr = rng.random()
             if rr < 0.3 or ntasks == 0:
-                ops.append(["add_task", "t%d" % ntasks, rng.choice([100, 10, 0]), rng.random() < 0.85])
+                # descriptions of very different lengths: the frame's width changes as tasks come and go
+                desc = "t%d" % ntasks + rng.choice(["", "", " " + "x" * rng.randint(1, 8), " a rather long description " + "y" * rng.randint(0, 30)])
+                ops.append(["add_task", desc, rng.choice([100, 10, 0]), rng.random() < 0.85])
                 ntasks += 1
             elif rr < 0.6:
                 ops.append(["advance", rng.randrange(ntasks), rng.choice([1, 5, 50, 200])])
